@@ -233,7 +233,14 @@ static void on_query(struct sim *s, const uint8_t *p, uint32_t len)
 	/* query storm: exchanges repeat although virtual time stands still (the transport-call spin monitor is
 	 * blind to it because every round consumes input) */
 	if (VNOW == s->t_last_query) {
-		if (++s->queries_same_second > 3000 && !s->spin_reported) {
+		if (++s->queries_same_second > 3000 && !s->spin_reported && s->sock->refresh_interval == 0) {
+			/* a refresh interval of 0 can only come from an End of Data under the accept-any interval mode: polling
+			 * back to back is then what the application asked for, not a loop of the client's own making.  Virtual
+			 * time will never move again, so the scenario is brought to an end here, without a verdict. */
+			s->spin_reported = true;
+			s->finished = true;
+			CNT("c08/scenarios_ended_polling_with_refresh_interval_0");
+		} else if (s->queries_same_second > 3000 && !s->spin_reported) {
 			s->spin_reported = true;
 			VO.muted = false;
 			viol("C08", "C08:spin:query-storm", "%ld queries sent without virtual time advancing (socket state %d)", s->queries_same_second, s->sock->state);
